@@ -764,3 +764,383 @@ func (s *ivState) step(in ssa.Instruction, raw map[*ssa.Phi]ssa.Value, isLoc fun
 		}
 	}
 }
+
+// ruleLoopsOutliveHandshakeContext (C02, C16): the state machine and the reader are started with
+// contexts that are rooted at context.Background(), not derived from the context of the Handshake
+// call that started them: the side that sent the last flight must stay able to repeat it when the
+// peer retransmits, after the caller released its handshake context (the usual defer cancel()).
+func ruleLoopsOutliveHandshakeContext(c *Ctx, r *Report) {
+	const rule = "loops-outlive-handshake-context"
+	host := c.need(r, rule, "(*dtls.Conn).handshake")
+	if host == nil {
+		return
+	}
+	// root of a context value: follow With* derivations and by-reference captures
+	var root func(v ssa.Value, d int) (string, bool)
+	root = func(v ssa.Value, d int) (string, bool) {
+		if d > 8 {
+			return "derivation too deep", false
+		}
+		switch x := v.(type) {
+		case *ssa.UnOp:
+			if fv, ok := x.X.(*ssa.FreeVar); ok {
+				if sv := singleCapturedValue(fv); sv != nil {
+					return root(sv, d+1)
+				}
+				return "captured variable with several assignments", false
+			}
+			if al, ok := x.X.(*ssa.Alloc); ok {
+				var stored ssa.Value
+				for _, ref := range *al.Referrers() {
+					if st, ok := ref.(*ssa.Store); ok && st.Addr == ssa.Value(al) {
+						if stored != nil {
+							return "variable with several assignments", false
+						}
+						stored = st.Val
+					}
+				}
+				if stored != nil {
+					return root(stored, d+1)
+				}
+			}
+		case *ssa.Extract:
+			return root(x.Tuple, d+1)
+		case *ssa.Call:
+			n := calleeName(&x.Call)
+			switch {
+			case n == "context.Background" || n == "context.TODO":
+				return n + "()", true
+			case strings.HasPrefix(n, "context.With"):
+				return root(x.Call.Args[0], d+1)
+			}
+			return "result of " + n, false
+		case *ssa.Parameter:
+			return "parameter " + x.Name() + " of " + short(x.Parent()), false
+		case *ssa.FreeVar:
+			if sv := singleCapturedValue(x); sv != nil {
+				return root(sv, d+1)
+			}
+		case *ssa.Phi:
+			for _, e := range x.Edges {
+				if why, ok := root(e, d+1); !ok {
+					return why, false
+				}
+			}
+			return "context.Background()", true
+		}
+		return shapeOf(v, 0), false
+	}
+	n := 0
+	fns := []*ssa.Function{host}
+	fns = append(fns, host.AnonFuncs...)
+	for _, fn := range fns {
+		r.Sites += len(fn.Blocks)
+		for _, b := range fn.Blocks {
+			for _, in := range b.Instrs {
+				call, ok := in.(*ssa.Call)
+				if !ok {
+					continue
+				}
+				var ctxArg ssa.Value
+				what := ""
+				if call.Call.IsInvoke() && call.Call.Method.Name() == "Run" && len(call.Call.Args) > 0 {
+					ctxArg, what = call.Call.Args[0], "state machine (fsm.Run)"
+				} else if calleeName(&call.Call) == "(*dtls.Conn).readAndBuffer" && len(call.Call.Args) > 1 {
+					ctxArg, what = call.Call.Args[1], "reader (readAndBuffer)"
+				}
+				if ctxArg == nil {
+					continue
+				}
+				n++
+				why, ok := root(ctxArg, 0)
+				r.Check(ok, rule, short(host)+":"+strings.Fields(what)[0]+strings.Fields(what)[1], c.ipos(call), "context rooted at "+why, "the "+what+" runs under a context derived from "+why+": once the caller of Handshake releases its context the loop exits, and a peer that lost the last flight retransmits into nothing and never completes")
+			}
+		}
+	}
+	r.Floor(rule, n, 2)
+}
+
+// rulePullKeepsFirstCopy (C02, C04): every (re)transmission of an own handshake message is pushed
+// into the handshake cache again, so the cache holds several entries with the same message
+// sequence; the transcript both sides hash is stable under retransmission only because a lookup
+// keeps the copy it already chose unless a *higher* message sequence turns up. With the chosen and
+// the candidate entry carrying equal message sequences, the replacement is unreachable.
+func rulePullKeepsFirstCopy(c *Ctx, r *Report) {
+	const rule = "pull-keeps-first-copy"
+	root := c.need(r, rule, "(*internal/flight.Cache).Pull")
+	if root == nil {
+		return
+	}
+	truth := func(op token.Token, cmp int) (bool, bool) { // cmp = sign(X - Y)
+		switch op {
+		case token.EQL:
+			return cmp == 0, true
+		case token.NEQ:
+			return cmp != 0, true
+		case token.LSS:
+			return cmp < 0, true
+		case token.LEQ:
+			return cmp <= 0, true
+		case token.GTR:
+			return cmp > 0, true
+		case token.GEQ:
+			return cmp >= 0, true
+		}
+		return false, false
+	}
+	n := 0
+	for _, fn := range c.unitFuncs(root) {
+		r.Sites += len(fn.Blocks)
+		// values compared with nil in this function: the "already chosen" entry
+		var nilCompared []ssa.Value
+		for _, b := range fn.Blocks {
+			for _, in := range b.Instrs {
+				if bo, ok := in.(*ssa.BinOp); ok && (bo.Op == token.EQL || bo.Op == token.NEQ) {
+					if isNilConst(bo.Y) {
+						nilCompared = append(nilCompared, bo.X)
+					} else if isNilConst(bo.X) {
+						nilCompared = append(nilCompared, bo.Y)
+					}
+				}
+			}
+		}
+		isChosen := func(base ssa.Value) bool {
+			for _, v := range nilCompared {
+				if v == base || sameValue(v, base) {
+					return true
+				}
+				// two loads of the same slot (out[i])
+				if u1, ok := v.(*ssa.UnOp); ok {
+					if u2, ok := base.(*ssa.UnOp); ok {
+						if sameValue(u1.X, u2.X) {
+							return true
+						}
+						i1, ok1 := u1.X.(*ssa.IndexAddr)
+						i2, ok2 := u2.X.(*ssa.IndexAddr)
+						if ok1 && ok2 && (i1.X == i2.X || sameValue(i1.X, i2.X)) && (i1.Index == i2.Index || sameValue(i1.Index, i2.Index)) {
+							return true
+						}
+					}
+				}
+			}
+			return false
+		}
+		for _, b := range fn.Blocks {
+			for _, in := range b.Instrs {
+				bo, ok := in.(*ssa.BinOp)
+				if !ok {
+					continue
+				}
+				_, fx, bx, okx := fieldLoad(bo.X)
+				_, fy, by, oky := fieldLoad(bo.Y)
+				if !okx || !oky || fx != "MessageSequence" || fy != "MessageSequence" {
+					continue
+				}
+				cx, cy := isChosen(bx), isChosen(by)
+				if cx == cy {
+					continue
+				}
+				n++
+				// sign(X - Y) when the chosen entry is newer than the candidate
+				newer := 1
+				if cy {
+					newer = -1
+				}
+				tEq, ok1 := truth(bo.Op, 0)
+				tNewer, ok2 := truth(bo.Op, newer)
+				if !ok1 || !ok2 {
+					r.Unk(rule, short(fn), c.ipos(bo), "unrecognised comparison of message sequences")
+					continue
+				}
+				r.Check(tEq == tNewer, rule, short(fn), c.ipos(bo), "an entry with the same message sequence is treated like an older one: the chosen copy stays", "a cache entry with the same message sequence as the one already chosen is treated like a newer one: a retransmitted copy (pushed again on every send) replaces the first and changes what the transcript hash and the Finished are computed over")
+			}
+		}
+	}
+	if n == 0 {
+		r.Unk(rule, short(root), c.pos(root.Pos()), "no comparison of message sequences between the chosen and the candidate entry found")
+	}
+}
+
+// ruleParseReentrant (C02, C14): a flight parser runs again for every datagram of the flight it
+// waits for, until the flight is complete; each earlier pass leaves through the keep-reading exit
+// (no next flight, no alert, no error). A pass must therefore not turn one of its own guards
+// around: if a guard compares a state field with a value taken from the received message, and the
+// parser then stores that value into that field on a path that can still leave through the
+// keep-reading exit, the next pass takes the other branch for the very same message (a ServerHello
+// that starts a new session is taken for the resumption of it once its session ID was adopted).
+func ruleParseReentrant(c *Ctx, r *Report) {
+	const rule = "parse-reentrant"
+	n := 0
+	var deep func(v ssa.Value, d int) []ssa.Value
+	deep = func(v ssa.Value, d int) []ssa.Value {
+		var out []ssa.Value
+		for _, l := range c.Origins(v, 0) {
+			if call, ok := l.(*ssa.Call); ok && d < 3 {
+				nm := calleeName(&call.Call)
+				if nm == "bytes.Clone" || nm == "slices.Clone" {
+					out = append(out, deep(call.Call.Args[0], d+1)...)
+					continue
+				}
+			}
+			out = append(out, l)
+		}
+		return out
+	}
+	for _, pkg := range []string{pkgF12, pkgF13} {
+		for _, fn := range c.fnsOfPkg(pkg) {
+			res := fn.Signature.Results()
+			if res.Len() != 3 || len(fn.Blocks) == 0 || fn.Parent() != nil {
+				continue
+			}
+			// keep-reading exits
+			var keep []*ssa.Return
+			for _, b := range fn.Blocks {
+				ret, ok := b.Instrs[len(b.Instrs)-1].(*ssa.Return)
+				if !ok || len(ret.Results) != 3 {
+					continue
+				}
+				k, isK := constInt(unspill(ret.Results[0]))
+				if isK && k == 0 && isNilConst(unspill(ret.Results[1])) && isNilConst(unspill(ret.Results[2])) {
+					keep = append(keep, ret)
+				}
+			}
+			if len(keep) == 0 {
+				continue
+			}
+			n++
+			r.Sites += len(fn.Blocks)
+			// guards: equality between a state field and some other value
+			type guard struct {
+				at    ssa.Instruction
+				owner string
+				field string
+				other ssa.Value
+			}
+			var guards []guard
+			addGuard := func(at ssa.Instruction, x, y ssa.Value) {
+				for _, pr := range [][2]ssa.Value{{x, y}, {y, x}} {
+					for _, l := range c.Origins(pr[0], 0) {
+						if o, f, _, ok := fieldLoad(l); ok && strings.HasPrefix(o, "internal/state.") {
+							guards = append(guards, guard{at, o, f, pr[1]})
+						}
+					}
+				}
+			}
+			for _, b := range fn.Blocks {
+				for _, in := range b.Instrs {
+					switch x := in.(type) {
+					case *ssa.BinOp:
+						if x.Op == token.EQL || x.Op == token.NEQ {
+							addGuard(in, x.X, x.Y)
+						}
+					case *ssa.Call:
+						if nm := calleeName(&x.Call); (nm == "bytes.Equal" || nm == "crypto/subtle.ConstantTimeCompare" || nm == "crypto/hmac.Equal") && len(x.Call.Args) == 2 {
+							addGuard(in, x.Call.Args[0], x.Call.Args[1])
+						}
+					}
+				}
+			}
+			bad := 0
+			for _, g := range guards {
+				otherLeaves := deep(g.other, 0)
+				for _, st := range c.StoresTo(g.owner, g.field) {
+					if st.Fn != fn || !instrReaches(g.at, st.Instr) {
+						continue
+					}
+					same := false
+					for _, l := range deep(st.Val, 0) {
+						if _, isC := l.(*ssa.Const); isC {
+							continue
+						}
+						for _, o := range otherLeaves {
+							if l == o || sameFieldLoad(l, o) {
+								same = true
+							}
+						}
+					}
+					if !same {
+						continue
+					}
+					for _, kr := range keep {
+						if instrReaches(st.Instr, kr) {
+							bad++
+							r.Bad(rule, fmt.Sprintf("%s:%s", short(fn), g.field), c.ipos(st.Instr), fmt.Sprintf("the parser compares state %s with a value of the received message (%s) and then stores that value into the field on a path that can still leave through the keep-reading exit at %s: the next pass over the same message takes the other branch of the comparison", g.field, c.ipos(g.at), c.ipos(kr)))
+							break
+						}
+					}
+				}
+			}
+			if bad == 0 {
+				r.OK(rule, short(fn), c.pos(fn.Pos()), fmt.Sprintf("%d equality guard(s) on state fields, none turned around before a keep-reading exit", len(guards)))
+			}
+		}
+	}
+	r.Floor(rule, n, 8)
+}
+
+// sameFieldLoad: two loads of the same field of the same base value.
+func sameFieldLoad(a, b ssa.Value) bool {
+	oa, fa, ba, ok1 := fieldLoad(a)
+	ob, fb, bb, ok2 := fieldLoad(b)
+	return ok1 && ok2 && oa == ob && fa == fb && sameValue(ba, bb)
+}
+
+// ruleDatagramSummaryMonotone (C17): what a datagram tells the state machine is folded over its
+// records: once one record marked the datagram as a retransmission (or as carrying handshake data)
+// a later record of the same datagram cannot take that back. With the flag already true, every
+// store into it stores true. (A datagram holding an already assembled message followed by a
+// fragment of the next one would otherwise count as new data on every retransmission and restore
+// the receiver's initial interval each time.)
+func ruleDatagramSummaryMonotone(c *Ctx, r *Report) {
+	const rule = "datagram-summary-monotone"
+	const owner = "dtls.datagramProcessingSummary"
+	n := 0
+	for _, field := range []string{"retransmit", "containsHandshake"} {
+		for _, st := range c.StoresTo(owner, field) {
+			fn := st.Fn
+			store, ok := st.Instr.(*ssa.Store)
+			if !ok {
+				continue
+			}
+			n++
+			r.Sites++
+			allTrue, seen := true, false
+			w := &Walk{Fn: fn, Assume: func(v ssa.Value) (Val, bool) {
+				if o, f, _, ok := fieldLoad(v); ok && o == owner && f == field {
+					return vBool(true), true
+				}
+				return unknown, false
+			}}
+			w.VisitRaw = func(in ssa.Instruction, env Env, raw map[*ssa.Phi]ssa.Value) bool {
+				if in == ssa.Instruction(store) {
+					seen = true
+					v := resolvePhis(store.Val, raw)
+					ev := w.eval(v, env)
+					if k, isK := constBool(v); isK {
+						ev = vBool(k)
+					}
+					if ev != vBool(true) {
+						allTrue = false
+					}
+				}
+				return true
+			}
+			w.FromEntry()
+			key := fmt.Sprintf("%s:%s", short(fn), field)
+			if !seen {
+				r.Unk(rule, key, c.ipos(store), "the accumulating store was not reached by the exploration")
+				continue
+			}
+			r.Check(allTrue, rule, key, c.ipos(store), "once true the flag stays true for the rest of the datagram", "a later record of the same datagram can reset summary."+field+" to false: the last record decides instead of any record")
+		}
+	}
+	r.Floor(rule, n, 2)
+}
+
+func reachableBlocks(b *ssa.BasicBlock) []*ssa.BasicBlock {
+	var out []*ssa.BasicBlock
+	for blk := range reachableFrom(b.Succs...) {
+		out = append(out, blk)
+	}
+	return out
+}
